@@ -241,7 +241,8 @@ def parts(tier):
         core.Part(
             'faults', execute,
             strategy=sim.histories(
-                weights={'req': 3, 'dbfault': 3, 'tgtfault': 3},
+                weights={'req': 3, 'dbfault': 3, 'tgtfault': 3,
+                         'chronfault': 2},
                 spec_kw={'kinds': ('task', 'task', 'analysis', 'regress')},
             ),
             cases=400 if q else 12500, batch=200,
